@@ -45,6 +45,18 @@ Theorem C01_outcomes :
 Proof. exact execute_outcome. Qed.
 Print Assumptions C01_outcomes.
 
+(* an accepted response ends at the parent of the proved header: no header can be left out between the last-N
+   section and the tip (the gate added by the repair of the defect found by the re-proved "drop-header" mutation) *)
+Theorem C01_accepted_ends_at_parent :
+  forall last_n tau ps rq msg_last hs mmr r s l ft,
+    gates last_n tau ps rq msg_last hs mmr r s l ft ->
+    match last_hdr hs with
+    | Some p => v_num p + 1 = v_num msg_last /\ v_id p = v_parent msg_last
+    | None => hs = []
+    end.
+Proof. intros last_n tau ps rq msg_last hs mmr r s l ft G. apply ends_at_parent_spec. exact (g_ends_at_parent _ _ _ _ _ _ _ _ _ _ _ G). Qed.
+Print Assumptions C01_accepted_ends_at_parent.
+
 (* without an outstanding request nothing changes, whatever the message *)
 Theorem C01_unsolicited_noop :
   forall last_n tau ps st msg_last proof_empty hs mmr rb rg,
